@@ -52,6 +52,11 @@ ASSUMPTIONS = [
     "geometric measure: 'zero on product states' and the GHZ/W values depend on ALS convergence: validated numerically "
     "(product/GHZ to 1e-9: unchanged code reaches 4e-15; W_n to 1e-3: unchanged code reaches 1e-5 because tucker stops at tol=1e-4)",
 ]
+UNREACHED_JUSTIFIED = {
+    "qclib/entanglement.py:schmidt_decomposition,schmidt_composition,low_rank_approximation,_separation_matrix,_undo_separation_matrix,"
+    "_effective_rank,randomized_svd": "Schmidt machinery: property C09 (and C07/C08 through LowRankInitialize), not the two measures of C20",
+    "qclib/entanglement.py:qb_approximation": "unused alternative to randomized_svd",
+}
 RULE = ("tie: distinct ops — exhaustive (qubit, selector, basis state) tables of _get_iota for n<=10, Gaussian-rational and float "
         "vectors (n=1..8; random dense/sparse, basis, product, GHZ, W, non-power-of-two lengths) whose slices, per-qubit entries and "
         "value were diffed against the Lean model, captured Tucker results whose post-processing was diffed; oracle: distinct "
@@ -716,6 +721,9 @@ def oracle_geo_state(ctx, n, kind, v, seed, tie=True):
         loss, ps, fs, rec = call_geo(v, seed, capture=True)
         np.random.seed(seed)
         loss_only = _real(_guard(_E().geometric_entanglement, np.asarray(v)), "geometric_entanglement")
+        # return_product_state=True with product_state_with_factors left at its default (2-tuple), list input
+        np.random.seed(seed)
+        two = _guard(_E().geometric_entanglement, np.asarray(v).tolist(), True)     # same dtype, so the same random draws
     except (NonReal, RealCodeRaised) as e:
         ctx.fail(f"geo.raises:{kind}:n={n}:{h}", f"geometric_entanglement on a valid {n}-qubit vector: {e}", dict(rp, check="raises"))
         return
@@ -733,6 +741,11 @@ def oracle_geo_state(ctx, n, kind, v, seed, tie=True):
                      f"<kron f,psi>={np.vdot(kr, v)}, norms={[float(np.linalg.norm(f)) for f in facs]}", rp, kind="assumption")
     checks = []
     checks.append(("same-value", abs(loss - loss_only) <= 1e-12, f"with product state {loss!r}, without {loss_only!r} (same seed)"))
+    two_ok = isinstance(two, tuple) and len(two) == 2 and abs(complex(two[0]) - loss) <= 1e-12 \
+        and np.asarray(two[1]).reshape(-1).shape == ps.shape and float(np.abs(np.asarray(two[1]).reshape(-1) - ps).max()) <= 1e-12
+    ctx.count("branch:geometric_entanglement(v, True) without factors")
+    checks.append(("two-tuple", two_ok, f"geometric_entanglement(list(v), True) (same seed) returned {type(two).__name__} "
+                   f"of length {len(two) if isinstance(two, tuple) else '-'}, not (same measure, same product state)"))
     checks.append(("range", -GEO_TOL <= loss <= 1 + GEO_TOL, f"measure {loss!r} outside [0,1]"))
     checks.append(("normalised", abs(np.linalg.norm(ps) - 1) <= TOL, f"|product_state| = {np.linalg.norm(ps)!r}"))
     kr = np.array([1.0 + 0j])
